@@ -233,6 +233,27 @@ where
             };
         }
 
+        // The same welcome rumor delivered again under another wrapper id (a replay, or a second
+        // gift wrap of it) must not create anything new, and in particular must not reset a group
+        // the user has meanwhile joined: remember the wrapper and return the stored welcome.
+        if let Some(stored_welcome) = self
+            .storage()
+            .find_welcome_by_event_id(&rumor_event_id)
+            .map_err(|e| Error::Welcome(e.to_string()))?
+        {
+            let processed_welcome = welcome_types::ProcessedWelcome {
+                wrapper_event_id: *wrapper_event_id,
+                welcome_event_id: Some(rumor_event_id),
+                processed_at: Timestamp::now(),
+                state: welcome_types::ProcessedWelcomeState::Processed,
+                failure_reason: None,
+            };
+            self.storage()
+                .save_processed_welcome(processed_welcome)
+                .map_err(|e| Error::Welcome(e.to_string()))?;
+            return Ok(stored_welcome);
+        }
+
         let welcome_preview = self.preview_welcome(wrapper_event_id, rumor_event)?;
 
         // Create a pending group
@@ -333,6 +354,16 @@ where
 
     /// Accepts a welcome
     pub fn accept_welcome(&self, welcome: &welcome_types::Welcome) -> Result<(), Error> {
+        // A welcome that was already accepted has done its work: accepting it again would replace
+        // the group's current MLS state with the stale one, declining it would deactivate the group.
+        if let Some(stored_welcome) = self.get_welcome(&welcome.id)?
+            && stored_welcome.state == welcome_types::WelcomeState::Accepted
+        {
+            return Err(Error::Welcome(
+                "welcome has already been accepted".to_string(),
+            ));
+        }
+
         let welcome_preview = self.preview_welcome(&welcome.wrapper_event_id, &welcome.event)?;
         let mls_group = welcome_preview.staged_welcome.into_group(&self.provider)?;
 
@@ -368,6 +399,16 @@ where
 
     /// Declines a welcome
     pub fn decline_welcome(&self, welcome: &welcome_types::Welcome) -> Result<(), Error> {
+        // A welcome that was already accepted has done its work: accepting it again would replace
+        // the group's current MLS state with the stale one, declining it would deactivate the group.
+        if let Some(stored_welcome) = self.get_welcome(&welcome.id)?
+            && stored_welcome.state == welcome_types::WelcomeState::Accepted
+        {
+            return Err(Error::Welcome(
+                "welcome has already been accepted".to_string(),
+            ));
+        }
+
         let welcome_preview = self.preview_welcome(&welcome.wrapper_event_id, &welcome.event)?;
 
         let mls_group_id = welcome_preview.staged_welcome.group_context().group_id();
